@@ -153,7 +153,22 @@ def run_property(pid, tier, seed):
         nrep = 0
         for part in mod.PARTS:
             if part.binary not in binaries:
-                b, out = mod.build(part.binary, work) if hasattr(mod, "build") else C.build_harness(work, part.binary)
+                # only the families this property's parts use (and the hook files they need) are built
+                fams = set()
+                for q in mod.PARTS:
+                    if q.binary == part.binary:
+                        ff = getattr(q, "fam_files", None) or ([C.FAMILY_FILE[q.family]] if q.family in C.FAMILY_FILE else None)
+                        if not ff:
+                            fams = None
+                            break
+                        fams.update(ff)
+                if hasattr(mod, "build"):
+                    try:
+                        b, out = mod.build(part.binary, work, fams=sorted(fams) if fams else None)
+                    except TypeError:
+                        b, out = mod.build(part.binary, work)
+                else:
+                    b, out = C.build_harness(work, part.binary, fams=sorted(fams) if fams else None)
                 binaries[part.binary] = (b, out)
             binary, bout = binaries[part.binary]
             if binary is None:
